@@ -328,11 +328,20 @@ func FeasibleUnder(fn *ssa.Function, param *ssa.Parameter, val bool) (blocks map
 // ResolveFuncValue returns the repository functions a called function value may denote.
 // precise=false means the fallback "all address-taken functions with identical signature" was used.
 func (g *Graph) ResolveFuncValue(v ssa.Value, feasible map[[2]*ssa.BasicBlock]bool) (fns []*ssa.Function, precise bool) {
+	return g.resolveFuncValueCtx(v, feasible, nil, false)
+}
+
+// resolveFuncValueCtx is ResolveFuncValue with the specialisation context (the bool parameter that is fixed and its value),
+// so that a value returned by a repository helper that receives the same flag is resolved under the same value.
+func (g *Graph) resolveFuncValueCtx(v ssa.Value, feasible map[[2]*ssa.BasicBlock]bool, specParam *ssa.Parameter, specVal bool) (fns []*ssa.Function, precise bool) {
+	type key struct {
+		v ssa.Value
+	}
 	seen := map[ssa.Value]bool{}
 	precise = true
-	var rec func(v ssa.Value)
-	rec = func(v ssa.Value) {
-		if seen[v] {
+	var rec func(v ssa.Value, feas map[[2]*ssa.BasicBlock]bool, sp *ssa.Parameter, depth int)
+	rec = func(v ssa.Value, feas map[[2]*ssa.BasicBlock]bool, sp *ssa.Parameter, depth int) {
+		if seen[v] || depth > 8 {
 			return
 		}
 		seen[v] = true
@@ -344,18 +353,39 @@ func (g *Graph) ResolveFuncValue(v ssa.Value, feasible map[[2]*ssa.BasicBlock]bo
 				fns = append(fns, f)
 			}
 		case *ssa.ChangeType:
-			rec(x.X)
+			rec(x.X, feas, sp, depth+1)
 		case *ssa.Phi:
 			for i, e := range x.Edges {
-				if feasible != nil && !feasible[[2]*ssa.BasicBlock{x.Block().Preds[i], x.Block()}] {
+				if feas != nil && !feas[[2]*ssa.BasicBlock{x.Block().Preds[i], x.Block()}] {
 					continue
 				}
-				rec(e)
+				rec(e, feas, sp, depth+1)
 			}
 		case *ssa.Extract:
-			rec(x.Tuple)
+			if call, ok := x.Tuple.(*ssa.Call); ok {
+				if callee := call.Call.StaticCallee(); callee != nil && g.repoSet[callee] && len(callee.Blocks) > 0 {
+					cfeas, cblocks, csp := g.calleeFeasibility(callee, call, sp, specVal)
+					n := 0
+					for _, b := range callee.Blocks {
+						if cblocks != nil && !cblocks[b] {
+							continue
+						}
+						if len(b.Instrs) == 0 {
+							continue
+						}
+						if ret, ok := b.Instrs[len(b.Instrs)-1].(*ssa.Return); ok && x.Index < len(ret.Results) {
+							n++
+							rec(ret.Results[x.Index], cfeas, csp, depth+1)
+						}
+					}
+					if n > 0 {
+						return
+					}
+				}
+			}
+			rec(x.Tuple, feas, sp, depth+1)
 		case *ssa.Lookup:
-			gls, ok := TableGlobals(x.X, feasible)
+			gls, ok := TableGlobals(x.X, feas)
 			if ok {
 				all := true
 				for _, gl := range gls {
@@ -381,7 +411,7 @@ func (g *Graph) ResolveFuncValue(v ssa.Value, feasible map[[2]*ssa.BasicBlock]bo
 			precise = false
 		}
 	}
-	rec(v)
+	rec(v, feasible, specParam, 0)
 	if !precise {
 		sig, ok := v.Type().Underlying().(*types.Signature)
 		if ok {
@@ -393,6 +423,29 @@ func (g *Graph) ResolveFuncValue(v ssa.Value, feasible map[[2]*ssa.BasicBlock]bo
 		}
 	}
 	return
+}
+
+// calleeFeasibility: when callee has a single bool parameter and the call passes a constant, or passes on the caller's
+// own fixed flag, the callee is analysed under that value.
+func (g *Graph) calleeFeasibility(callee *ssa.Function, call ssa.CallInstruction, callerParam *ssa.Parameter, callerVal bool) (map[[2]*ssa.BasicBlock]bool, map[*ssa.BasicBlock]bool, *ssa.Parameter) {
+	bp := g.specialisable(callee)
+	if bp == nil {
+		return nil, nil, nil
+	}
+	idx := paramIndex(callee, bp)
+	args := call.Common().Args
+	if idx < 0 || idx >= len(args) {
+		return nil, nil, nil
+	}
+	if c, ok := args[idx].(*ssa.Const); ok && c.Value != nil && c.Value.Kind() == constant.Bool {
+		blocks, feas := FeasibleUnder(callee, bp, constant.BoolVal(c.Value))
+		return feas, blocks, bp
+	}
+	if callerParam != nil && args[idx] == ssa.Value(callerParam) {
+		blocks, feas := FeasibleUnder(callee, bp, callerVal)
+		return feas, blocks, bp
+	}
+	return nil, nil, nil
 }
 
 func sameSig(a, b *types.Signature) bool {
@@ -609,8 +662,13 @@ func (g *Graph) edgesOf(f *ssa.Function) {
 	}
 }
 
-// SpecialisedCallees lists the call edges of fn on the paths feasible when param == val.
+// SpecialisedCallees lists the call edges of fn on the paths feasible when param == val. Repository callees that are
+// handed the same flag (or a constant flag) are expanded under that value as well.
 func (g *Graph) SpecialisedCallees(fn *ssa.Function, param *ssa.Parameter, val bool) []Edge {
+	return g.specialisedCallees(fn, param, val, 0)
+}
+
+func (g *Graph) specialisedCallees(fn *ssa.Function, param *ssa.Parameter, val bool, depth int) []Edge {
 	blocks, feas := FeasibleUnder(fn, param, val)
 	var out []Edge
 	for _, b := range fn.Blocks {
@@ -624,6 +682,34 @@ func (g *Graph) SpecialisedCallees(fn *ssa.Function, param *ssa.Parameter, val b
 					out = append(out, Edge{Caller: fn, Callee: cf, Site: x, Kind: "closure"})
 				}
 			case ssa.CallInstruction:
+				cc := x.Common()
+				if callee := cc.StaticCallee(); callee != nil && g.repoSet[callee] && depth < 3 {
+					if bp := g.specialisable(callee); bp != nil {
+						idx := paramIndex(callee, bp)
+						if idx >= 0 && idx < len(cc.Args) {
+							if c, ok := cc.Args[idx].(*ssa.Const); ok && c.Value != nil && c.Value.Kind() == constant.Bool {
+								out = append(out, g.specialisedCallees(callee, bp, constant.BoolVal(c.Value), depth+1)...)
+								continue
+							}
+							if cc.Args[idx] == ssa.Value(param) {
+								out = append(out, g.specialisedCallees(callee, bp, val, depth+1)...)
+								continue
+							}
+						}
+					}
+				}
+				if cc.StaticCallee() == nil && !cc.IsInvoke() {
+					if _, isB := cc.Value.(*ssa.Builtin); !isB {
+						fns, _ := g.resolveFuncValueCtx(cc.Value, feas, param, val)
+						for _, f := range fns {
+							g.ensureRepo(f)
+							if g.repoSet[f] {
+								out = append(out, Edge{Caller: fn, Callee: f, Site: x, Kind: "funcvalue"})
+							}
+						}
+						continue
+					}
+				}
 				out = append(out, g.CalleesAt(fn, x, feas)...)
 			}
 		}
